@@ -19,6 +19,7 @@ import Gama.Lemmas.EnvState
 import Gama.Lemmas.EnvHist
 import Gama.Lemmas.EnvDenote
 import Gama.Lemmas.EnvStateFacts
+import Gama.Gen.NetCascade
 namespace Gama.Props.C04
 open Gama Gama.MTF Gama.C04
 
@@ -59,6 +60,12 @@ theorem mtf_keeps_most_recent (m : MTF Key Buf) (k k0 : Key) (b0 : Buf) (rest : 
 
 example : (MTF.init [0, 1, 2] : MTF Int Nat).WF ∧ 2 ≤ (MTF.init [0, 1, 2] : MTF Int Nat).cap :=
   ⟨wf_init _ (by decide), by decide⟩
+
+/-- **the cache capacity of the envelope model is the source's** (round 9): `cacheSize` of `Model/EnvState.lean` equals
+    the template argument of `GNU_gama::MoveToFront<N,Index,Index> indbuf` in adj_envelope.h, regenerated on every run by
+    tools/gen/c04_cascade.py (`MoveToFront<(\d+)`); with it `2 ≤ cap`, the hypothesis of `mtf_keeps_most_recent` -/
+theorem mtf_cache_size_is_source : cacheSize = Gama.C04.Net.Gen.mtfCapacity ∧ 2 ≤ Gama.C04.Net.Gen.mtfCapacity :=
+  ⟨rfl, by decide⟩
 
 /-! ### `AdjEnvelope` -/
 
@@ -178,7 +185,8 @@ theorem envelope_history_free_is_corollary (inp : EnvInput) (hp : inp.Pos) (m0 :
     CURRENT problem `p = W.prob id` with the configuration `c = lastCfg m0 ops` the CALLER left (`op'` = `op`
     with the element order in which the code indexes the symmetric inverse outside the envelope,
     `codeOrder`).  The right-hand side mentions neither the history, nor the object's state, nor a symbolic
-    fact, nor the stored list `m` the term is evaluated with: the value is determined by the problem alone. -/
+    fact, nor the stored list `m` the term is evaluated with: the value is determined by the problem, the caller's
+    configuration and the query alone. -/
 theorem env_answer_denotes {K : Type} [Scalar K] (W : World K) (inp0 : EnvInput) (hp : inp0.Pos)
     (m0 : Option (List Nat)) (ops : List HOp) (hops : HValid inp0 ops) (op : Op) (m : Option (List Nat)) :
     let h := hrun (hinit inp0 m0) ops
